@@ -643,15 +643,32 @@ def _establish(ctx: Ctx) -> None:
     fs = repo.func(M + "tsp.fea1p1_revn", "TSPFEA1p1revn.solve")
     okh = False
     hn: ast.AST = fs.node
+    from sa.kern import make_evaluator as _mk
+    from sa.symterm import Env as _Env, Poly as _Poly, Unsupported as _Uns
     for nd in ast.walk(fs.node):
         if isinstance(nd, ast.Call) and isinstance(
                 nd.func, ast.Attribute) and nd.func.attr in (
-                "zeros", "empty") and nd.args:
-            src = ast.unparse(nd.args[0]).replace(" ", "")
+                "zeros", "empty") and (nd.args or any(
+                    k_.arg == "shape" for k_ in nd.keywords)):
+            size_e = inline_locals(fs.node, nd.args[0] if nd.args else next(
+                k_.value for k_ in nd.keywords if k_.arg == "shape"))
+            src = ast.unparse(size_e).replace(" ", "")
             if "tour_length_upper_bound" in src:
                 hn = nd
-                okh = src.endswith("tour_length_upper_bound+1") or \
-                    src.startswith("1+")
+                # by value: size - upper bound == 1 (the bound may be read
+                # through a local alias of the instance)
+                try:
+                    ev_ = _mk(repo, fs)
+                    ev_.int_transparent = True
+                    sz = ev_.num(_Env(), size_e)
+                    ubs = [a_ for a_ in sz.atoms() if a_[0] == "var"
+                           and str(a_[1]).endswith(
+                               "tour_length_upper_bound")]
+                    okh = len(ubs) == 1 and (
+                        sz - _Poly.atom(ubs[0])).const_value() == 1
+                except _Uns:
+                    okh = src.endswith("tour_length_upper_bound+1") or \
+                        src.startswith("1+")
     ctx.ob(R, fs, hn, okh,
            "the FEA's frequency table has tour_length_upper_bound + 1 "
            "cells (the kernel indexes it with lengths 0..UB)" if okh else
